@@ -750,6 +750,12 @@ def spec_rename(unit: dict, sf: str, text: str) -> str:
     BORROWED spec/contract file, for units that combine two spec packs defining the same name (e.g. `cur_owner`)"""
     for a, b in unit.get("spec_renames", {}).get(sf, {}).items():
         text = re.sub(r"\b%s\b" % re.escape(a), b, text)
+    # "spec_subst": {"<borrowed spec file as listed>": [["old text", "new text"], …]} — literal replacement of ONE occurrence;
+    # used by strict units to STRENGTHEN a borrowed declaration (e.g. give a trait method a `requires`) without copying the file
+    for a, b in unit.get("spec_subst", {}).get(sf, []):
+        if text.count(a) != 1:
+            raise Undecided(f"lost anchor: spec_subst text for {sf} occurs {text.count(a)} times: {a[:60]!r}")
+        text = text.replace(a, b)
     return text
 
 
@@ -1125,7 +1131,7 @@ def shard_text(asm: "Assembled", kind: str) -> str:
 # verus
 
 VIOLATION_KINDS = ("postcondition not satisfied", "precondition not satisfied", "invariant not satisfied",
-                   "assertion failed", "possible arithmetic underflow/overflow", "possible division by zero",
+                   "assertion failed", "possible arithmetic underflow/overflow", "possible bit shift underflow/overflow", "possible division by zero",
                    "loop invariant", "decreases not satisfied", "unreachable", "recommendation not met")
 
 
